@@ -441,7 +441,38 @@ def case_words(case, col=None):
         raise Violation(f"word_form:{case['form']}", f"{text!r} -> {show_res(got)}, expected {show_res(want)}")
 
 
+SPECIAL = [("inf m", "inf", 1), ("-inf m", "-inf", 1), ("inf", "inf", 0), ("Infinity s", "inf", 1), ("INF * m", "inf", 1), ("2.5 m + inf m", "inf", 1), ("0.5 * inf s", "inf", 1),
+           ("1.5 m / inf", "0", 1), ("inf m - 2 m", "inf", 1), ("-2 * inf m", "-inf", 1), ("nan m", "nan", 1), ("NaN", "nan", 0), ("3 m * nan", "nan", 1), ("inf m ** 2", "inf", 1)]
+
+
+def case_special(case, col=None):
+    """the words inf / infinity / nan (any case) are numbers of the registry's own number type, and arithmetic on them is Python's arithmetic on that type"""
+    import math
+
+    nit = case["nit"]
+    ureg = env.ureg(nit)
+    text, want, has_unit = case["text"], case["want"], case["unit"]
+    if col is not None:
+        col.case(("sp", text, nit), True, sample=case, cls="special_number:" + nit)
+    s_, r = attempt(ureg.parse_expression, text)
+    if s_ == "err":
+        raise Violation(f"special_number_refused:{nit}:{exc_class(r)}", f"[{nit}] parse_expression({text!r}) raised {type(r).__name__}: {r}")
+    m = getattr(r, "magnitude", r)
+    if bool(has_unit) != hasattr(r, "_units") and has_unit:
+        raise Violation(f"special_number_wrong_value:{nit}", f"[{nit}] {text!r} -> {r!r}: a quantity was expected")
+    T = env.NIT[nit]
+    if type(m) is not T and not (T is float and isinstance(m, int)):
+        raise Violation(f"special_number_wrong_type:{nit}", f"[{nit}] {text!r} -> magnitude {m!r} of type {type(m).__name__}, the registry's number type is {T.__name__}")
+    f = float(m)
+    ok = math.isnan(f) if want == "nan" else f == float(want)
+    if not ok:
+        raise Violation(f"special_number_wrong_value:{nit}", f"[{nit}] {text!r} -> {r!r}, expected {want}")
+
+
 def run_words(task, tier, seed, col):
+    for nit_ in ("float", "Decimal"):  # Fraction has no infinity / nan
+        for text_, want_, unit_ in SPECIAL:
+            col.run_case(lambda c: case_special(c, col), {"text": text_, "want": want_, "unit": unit_, "nit": nit_})
     names = ["m", "s", "kg", "meter", "second", "inch"]
     nums = ["2", "3", "0.5"]
     for a in names:
@@ -769,6 +800,8 @@ def replay(sub, case):
         case["tree"] = _tup(case["tree"])
     if sub == "small":
         return case_small(case)
+    if sub == "words" and "want" in case:
+        return case_special(case)
     return {"large": case_large, "malformed": case_malformed, "noexec": case_noexec, "words": case_words, "uncert": case_uncert, "fuzz": case_fuzz}[sub](case)
 
 
